@@ -35,7 +35,7 @@ Init == /\ prog = <<>> /\ dim = [s \in Slots |-> -1] /\ topo = [s \in Slots |-> 
 \* TLC evaluates Init ONCE per run, also in simulation mode: every random draw that must differ from one history to the next (anchors,
 \* number of state drivers, kind of recipe) is made by this first step, not by Init
 Setup == /\ phase = "setup" /\ phase' = "op"
-         /\ anchor' = Mat([s \in 1..3 |-> Mat([i \in 1..MaxDim |-> RE(-1..1)])])
+         /\ anchor' = Mat([s \in 1..3 |-> Mat([i \in 1..(MaxDim + 2) |-> RE(-1..1)])])
          /\ nd' \in {RE(0..3)} /\ rk' \in {IF "chain" \in OpSet THEN "chain" ELSE RE({"op", "op", "copy"})}
          /\ UNCHANGED <<prog, dim, topo, cur, focus>>
 Alive(s) == dim[s] >= 0
